@@ -17,13 +17,14 @@ STATE_CLAUSES = {
     "C02": ["busy_op", "no_overdue"],
     "C03": ["placement", "loc", "mach_hold", "agv_hold", "claims", "flags", "agv_phase"],
     "C05": ["placement", "loc", "mach_hold", "agv_hold", "claims", "capacity", "flags", "feasible", "no_overdue",
-            "past", "busy_op", "proc_inner", "output_done", "outages", "outage_nonneg", "agv_phase"],
+            "past", "busy_op", "proc_inner", "output_done", "outages", "outage_nonneg", "agv_phase", "idle_unclaimed",
+            "sto_ok"],
     "C07": ["agv_phase", "agv_hold", "no_overdue"],
     "C08": ["capacity"],
     "C09": ["busy_op"],
     "C10": ["outages", "outage_nonneg"],
     "C11": [],
-    "C12": ["no_overdue", "past"],
+    "C12": ["no_overdue", "past", "idle_unclaimed", "sto_ok"],
     "C20": [],
 }
 EVENT_CLAUSES = {
